@@ -1,6 +1,7 @@
 """C04: built Partial is functools.partial; ArgFactory arguments fresh per call."""
 from __future__ import annotations
 
+import collections
 import functools
 import itertools
 
@@ -51,11 +52,14 @@ KINDS = ('cfg', 'af', 'par', 'list1', 'list2', 'tuple', 'dict',
          'afp', 'afv', 'parp', 'aflaky')   # ...p: positional-only arg, ...v: via *args
 
 
-def gen(depth, af_ok=True):
+EXTRA_KINDS = ('nt', 'ntsub', 'ddict')
+
+
+def gen(depth, af_ok=True, kinds=KINDS):
   yield ('leaf', 'L')
   if depth == 0:
     return
-  for k in KINDS:
+  for k in kinds:
     if k in ('af', 'afp', 'afv', 'aflaky') and not af_ok:
       continue
     child_af_ok = af_ok
@@ -63,7 +67,7 @@ def gen(depth, af_ok=True):
       child_af_ok = False
     if k in ('af', 'par', 'afp', 'afv', 'parp', 'aflaky'):
       child_af_ok = True
-    for v in gen(depth - 1, child_af_ok):
+    for v in gen(depth - 1, child_af_ok, kinds):
       yield (k, v)
 
 
@@ -99,6 +103,12 @@ def materialize(spec, leafval='L'):
     return (v,)
   if k == 'dict':
     return {'k': v}
+  if k == 'nt':
+    return N.Pair(v, 'second')
+  if k == 'ntsub':
+    return N.PairSub('first', v)
+  if k == 'ddict':
+    return collections.defaultdict(list, {'k': v})
   raise ValueError(spec)
 
 
@@ -134,6 +144,9 @@ def instantiate(v):
     return type(v)(*[instantiate(x) for x in v])
   if isinstance(v, (list, tuple)):
     return type(v)(instantiate(x) for x in v)
+  if isinstance(v, collections.defaultdict):
+    return collections.defaultdict(
+        v.default_factory, {k: instantiate(x) for k, x in v.items()})
   if isinstance(v, dict):
     return {k: instantiate(x) for k, x in v.items()}
   raise AssertionError(v)
@@ -210,6 +223,11 @@ def ref_build(x, memo):
     out = tuple(ref_build(v, memo) for v in x)
   elif type(x) is dict:
     out = {k: ref_build(v, memo) for k, v in x.items()}
+  elif canon.is_namedtuple(x):
+    out = type(x)(*[ref_build(v, memo) for v in x])
+  elif type(x) is collections.defaultdict:
+    out = collections.defaultdict(
+        x.default_factory, {k: ref_build(v, memo) for k, v in x.items()})
   else:
     return x
   memo[i] = (x, out)
@@ -232,9 +250,10 @@ def normalize(v, depth=0):
   if isinstance(v, list):
     return ('list', tuple(normalize(x, depth) for x in v))
   if isinstance(v, tuple):
-    return ('tuple', tuple(normalize(x, depth) for x in v))
+    return (type(v).__name__, tuple(normalize(x, depth) for x in v))
   if isinstance(v, dict):
-    return ('dict', tuple((k, normalize(x, depth)) for k, x in v.items()))
+    return (type(v).__name__,
+            tuple((k, normalize(x, depth)) for k, x in v.items()))
   return ('leaf', type(v).__name__, repr(v))
 
 
@@ -266,6 +285,10 @@ CALLS = {
     'pos': [('noargs', (), {}), ('noargs_failing', (), {}),
             ('override_k', (), {'k': 'ok'}),
             ('override_a', (), {'a': 'oa'}), ('extra_pos', ('pos',), {})],
+    'po3': [('noargs', (), {}), ('extra_pos', ('pos',), {}),
+            ('extra_pos2', ('p1', 'p2'), {}), ('extra_pos3', ('p1', 'p2', 'p3'),
+                                              {}),
+            ('override_k', (), {'k': 'ok'})],
     'nd': [('noargs', (), {}), ('supply_x', (), {'x': 'sx'}),
            ('override_y', (), {'y': 'oy'}), ('extra_pos', ('pos',), {})],
 }
@@ -279,6 +302,9 @@ def make_root(form, s1, s2):
   if form == 'nd':
     # x required and unset: supplied at call time
     return fdl.Partial(N.node_nd, y=[v1, v2])
+  if form == 'po3':
+    # a prefix of the positional-only parameters set, no *args values
+    return fdl.Partial(N.node_po3, v1, k=v2)
   p = fdl.Partial(N.node_pos)
   p[0] = v1
   p[fdl.VARARGS:] = [v2]
@@ -397,6 +423,16 @@ def all_cases(b):
     for s1 in d3:
       for s2 in (('leaf', 'L'), ('af', ('leaf', 'L'))):
         yield form, s1, s2
+  for s1 in d2:
+    for s2 in (('leaf', 'L'), ('af', ('leaf', 'L')), 'same'):
+      yield 'po3', s1, s2
+  # named tuples, classes derived from them and defaultdicts as containers
+  seen = set(d2)
+  for form in ('kw', 'pos'):
+    for s1 in gen(2, True, KINDS + EXTRA_KINDS):
+      if s1 not in seen and any(contains(s1, k) for k in EXTRA_KINDS):
+        for s2 in (('leaf', 'L'), ('af', ('leaf', 'L')), 'same'):
+          yield form, s1, s2
 
 
 NCHUNK = 48
